@@ -83,3 +83,19 @@ Definition pager_mirror_edges_sound_stmt : Prop :=
       exists G core_t closed_t,
         is_goto g core X G /\ (exists k, has_core G k) /\
         nth_error (pg_states pg) t = Some (core_t, closed_t) /\ sub_kernel G core_t.
+
+(* ---- the panic sites of pager_stategraph are unreachable ------------------------------------
+
+   Every indexing / unwrap / usize subtraction mirrored as [Panic] in LoopModel.v
+   (closed_states.iter().position(..).unwrap(), core_states[..], edges[..],
+   cnd_*_weaklies[..], closed_states[k], the look-ups inside close / goto /
+   weakly_compatible / weakly_merge, `todo -= 1`, Option::unwrap of the closed
+   states, offsets[..] in gc) is unreachable, for any oracle and any fuel; the
+   only panics left are the deliberate StorageT size checks, excluded here by
+   the bound on [max_st]: a run of at most [fuel] iterations creates at most
+   1 + fuel * |symbols| states.  (What may still happen is OutOfFuel: termination
+   of the loop is not proved.) *)
+Definition pager_mirror_never_panics_stmt : Prop :=
+  forall g nl fs max_st fuel orders, loop_pre g nl fs ->
+    (N.of_nat (S (S (fuel * length (all_syms g)))) < max_st)%N ->
+    pager_mirror g nl fs max_st fuel orders <> Panic.
